@@ -22,6 +22,37 @@ def run(tier, seed):
     rep.add_case_results(run_cases([("t2.cases", "make_rel", (p.to_json(),)) for p in progs]), "T2")
     rep.add_case_results(run_cases([("t2.cases", "make_arrsem", (p.to_json(),)) for p in progs if len(p.kinds) == 1]), "T2")
     run_pipeline(rep, progs, ["C01"])
+    # the size check is reached through the enclosing structure too: a fixed-size (non character) array member holding
+    # another number of elements - zero included - is refused when the structure is dumped
+    from dissect.cstruct.exceptions import ArraySizeError
+    from runtime.bounded import Bounded
+
+    b = Bounded("wrong-length-refused-through-the-structure", "static array kinds of family F x assigned lengths {0, 1, n-1, n+1, 2n} x both readers' values")
+    for kind in ("a_u16_3", "a_i24_2", "a_e8_2", "a_e24_2", "a_ptr_2", "a_f32_2", "a2d", "a2d_i24", "a_inner_2", "a_pnode_2"):
+        for compiled in (False, True):
+            try:
+                from t2.family import Program
+
+                T = Program(["u8", kind, "u16"], "<", False).load(compiled).T
+                v = T(bytes((i * 11 + 3) % 251 + 1 for i in range(64)))
+                name = next(f._name for f in T.__fields__ if isinstance(getattr(v, f._name), list))
+                orig = list(getattr(v, name))
+                n = len(orig)
+            except Exception as e:  # noqa: BLE001
+                b.case((kind, compiled, "setup"), False, observed=f"raises {type(e).__name__}: {e}", inputs={"kind": kind})
+                continue
+            for ln in sorted({0, 1, n - 1, n + 1, 2 * n} - {n}):
+                w = T(v.dumps())
+                setattr(w, name, (orig * 3)[:ln])
+                try:
+                    out = w.dumps()
+                    ok, obs = False, f"{name} holds {ln} elements instead of {n}: dumps() returned {out.hex()}"
+                except ArraySizeError:
+                    ok, obs = True, None
+                except Exception as e:  # noqa: BLE001
+                    ok, obs = False, f"{name} holds {ln} elements instead of {n}: raises {type(e).__name__} instead of ArraySizeError"
+                b.case((kind, compiled, ln), ok, observed=obs, inputs={"definition": T.__name__, "kind": kind, "assigned_length": ln, "declared": n})
+    b.add_to(rep)
     rep.extra["rule"] = "array programs of family F: four length forms x element kinds (packed ints, int24/48, char, wchar, enum, pointer, float, struct, nested array, LEB128), both readers"
     rep.extra["explanation"] = (
         "T1: BaseArray._read resolves the count (int / max(0, expression over earlier fields, then constants) / null-terminated / EOF "
